@@ -166,6 +166,53 @@ static void caseC09(uint64_t idx, vh::Rng& g)
 		}
 		catch (std::exception& e) { R->violation("C09/" + sel + "/exception", e.what()); }
 	}
+	if (R->param("simsel", 1))
+	{	// simulation-assisted selections (ANTICHAINS_SIM, CONGR_DEPTH_SIM). The library cannot compute a
+		// simulation of a word automaton itself (ComputeSimulation is unimplemented), so the caller has to
+		// supply the preorder: the identity, and the greatest forward simulation of the disjoint union
+		// computed here. The operands are loaded through one dictionary: state numbers are dense,
+		// disjoint and known; as in the CLI, the congruence algorithm gets union(A,B) as smaller operand.
+		try
+		{
+			SharedDict sd; FA x = loadFA(a, nsym, "A", sd, "p"), y = loadFA(b, nsym, "B", sd, "r");
+			size_t n = sd.cnt;
+			auto num = [&](const char* q, St s) -> long { auto it = sd.d.FindFwd(std::string(q) + vh::str(s)); return it == sd.d.EndFwd() ? -1 : static_cast<long>(it->second); };
+			std::vector<char> fin(n, 0); std::vector<std::vector<std::pair<int, size_t>>> out(n);
+			auto add = [&](const RFA& f, const char* q) {
+				for (St s : f.fin) { long v = num(q, s); if (v >= 0) fin[v] = 1; }
+				for (auto& t : f.tr) { long s = num(q, std::get<0>(t)), d = num(q, std::get<2>(t)); if (s >= 0 && d >= 0) out[s].push_back(std::make_pair(std::get<1>(t), static_cast<size_t>(d))); } };
+			add(a, "p"); add(b, "r");
+			std::vector<char> rel(n * n, 0);
+			for (size_t q = 0; q < n; ++q) for (size_t r = 0; r < n; ++r) rel[q * n + r] = (!fin[q] || fin[r]);
+			for (bool ch = true; ch;)
+			{
+				ch = false;
+				for (size_t q = 0; q < n; ++q) for (size_t r = 0; r < n; ++r) if (rel[q * n + r])
+				{
+					bool ok = true;
+					for (auto& e : out[q]) { bool m = false; for (auto& f : out[r]) if (f.first == e.first && rel[e.second * n + f.second]) { m = true; break; } if (!m) { ok = false; break; } }
+					if (!ok) { rel[q * n + r] = 0; ch = true; }
+				}
+			}
+			size_t pairs = 0; for (size_t q = 0; q < n; ++q) for (size_t r = 0; r < n; ++r) if (q != r && rel[q * n + r]) ++pairs;
+			if (pairs) R->count("simsel:forward-simulation-nontrivial");
+			for (int mode = 0; mode < 2; ++mode) for (int alg = 0; alg < 2; ++alg)
+			{
+				std::string sel = std::string(alg ? "congr-depth" : "antichains") + (mode ? "+sim(forward)" : "+sim(identity)");
+				R->phase(sel); R->count("runs:" + sel);
+				Util::BinaryRelation br(n, false);
+				for (size_t q = 0; q < n; ++q) for (size_t r = 0; r < n; ++r) if (mode ? rel[q * n + r] : (q == r)) br.set(q, r, true);
+				Util::DiscontBinaryRelation::DictType dict; for (size_t i = 0; i < n; ++i) dict.insert(std::make_pair(i, i));
+				AutBase::StateDiscontBinaryRelation sim(br, dict);
+				InclParam ip; ip.SetAlgorithm(alg ? InclParam::e_algorithm::congruences : InclParam::e_algorithm::antichains);
+				ip.SetSearchOrder(InclParam::e_search_order::depth); ip.SetUseSimulation(true); ip.SetSimulation(&sim);
+				bool r = alg ? FA::CheckInclusion(FA::UnionDisjointStates(x, y), y, ip) : FA::CheckInclusion(x, y, ip);
+				if (r != ref) R->violation("C09/" + sel + (r ? "/falsely-included" : "/falsely-rejected"), std::string("library: ") + (r ? "included" : "not included"));
+				if (auditReports) { R->violation("C09/" + sel + "/memo-audit", "a memoised subset test differs from the recomputed one: " + auditFirst + " (" + vh::str(auditReports) + " report(s))"); auditReports = 0; auditFirst.clear(); }
+			}
+		}
+		catch (std::exception& e) { R->violation("C09/sim-selections/exception", e.what()); }
+	}
 	if (idx % static_cast<uint64_t>(R->param("cli_every", 200)) == 0)
 	{	// the same pair through `vata -r expl_fa`
 		std::string fa = R->outdir + "/" + R->tag + ".A.txt", fb = R->outdir + "/" + R->tag + ".B.txt"; writeFile(fa, faToTimbuk(a, nsym, "A")); writeFile(fb, faToTimbuk(b, nsym, "B"));
